@@ -93,6 +93,7 @@ func cmdCheck(args []string) int {
 	solver := fs.String("solver", "z3-new", "primary solver binary")
 	noReplay := fs.Bool("no-replay", false, "skip native replay (debug)")
 	keep := fs.Bool("keep-queries", false, "keep dumped assertion queries")
+	maxPaths := fs.Int("max-paths", 0, "override path budget (debug)")
 	fs.Parse(args[1:])
 	seed := 0
 	if s := os.Getenv("VERIF_SEED"); s != "" {
@@ -119,7 +120,10 @@ func cmdCheck(args []string) int {
 			continue
 		}
 		j.Verbose = *verbose
-		r := RunJob(P, j, *workers, *solver, []string{"-in"}, queryDir)
+		if *maxPaths > 0 {
+			j.B.MaxPaths = *maxPaths
+		}
+		r := RunJob(P, j, *workers, *solver, nil, queryDir)
 		results = append(results, r)
 		fmt.Printf("job %-40s paths=%d forks=%d obligations=%d discharged=%d violations=%d unknown=%d solverq=%d wall=%.1fs aborts=%v\n",
 			j.Name, r.Paths, r.Forks, r.Obligations, r.Discharged, len(r.Violations), r.Unknown+r.UnknownAssert, r.SolverQueries, r.Wall.Seconds(), r.Aborts)
@@ -444,9 +448,9 @@ func solverDiff(dir, tier string, seed int) (int, string) {
 		return 0, ""
 	}
 	sort.Strings(files)
-	limit := 12
+	limit := 8
 	if tier == "thorough" {
-		limit = 150
+		limit = 100
 	}
 	// seeded sample
 	rnd := uint64(seed)*6364136223846793005 + 1442695040888963407
@@ -464,9 +468,9 @@ func solverDiff(dir, tier string, seed int) (int, string) {
 		go func() {
 			sem <- struct{}{}
 			defer func() { <-sem }()
-			a := runSolver("z3-new", []string{"-T:60", f})
-			b := runSolver("z3", []string{"-T:60", f})
-			c := runSolver("cvc5", []string{"--tlimit=60000", f})
+			a := runSolver("z3-new", []string{"-T:20", f})
+			b := runSolver("z3", []string{"-T:20", f})
+			c := runSolver("cvc5", []string{"--tlimit=20000", "--solve-bv-as-int=sum", f})
 			ch <- res{f, a, b, c}
 		}()
 	}
